@@ -341,6 +341,10 @@ package godi
 //@   ensures[C01] singleton_reads_table_only: d != nil && d.Lifetime == Singleton ==> ncalls("scope.createInstance") == 0 && ncalls("provider.singletons.Store") == 0
 //@        && ncalls("provider.singletons.Load") == 1 && callarg("provider.singletons.Load", 0, 0) == s.rootProvider && callarg("provider.singletons.Load", 0, 1) == box(key)
 //@   ensures[C01] singleton_value: d != nil && d.Lifetime == Singleton && callret("provider.singletons.Load", 0, 1) ==> result0 == callret("provider.singletons.Load", 0, 0) && result1 == nil
+// C13 'an operation that overlaps a Close either completes normally or reports the disposed error': the only way a registered singleton
+// is missing on a built provider is that the provider was closed meanwhile (Close drops the table)
+//@   ensures[C13,C15] singleton_miss_on_a_closed_provider_reports_the_disposed_error: d != nil && d.Lifetime == Singleton && !callret("provider.singletons.Load", 0, 1) ==>
+//@        ncalls("atomic.Load:disposed") == 1 && (callret("atomic.Load:disposed", 0, 0, "int32") != 0 ==> result1 == ErrProviderDisposed)
 //@   ensures[C01,C15] singleton_missing_is_error: d != nil && d.Lifetime == Singleton && !callret("provider.singletons.Load", 0, 1) ==> result0 == nil && result1 != nil
 //@        && typeis(result1, "*ResolutionError") && as(result1, "*ResolutionError").Cause == ErrSingletonNotInitialized
 //@   ensures[C02] scoped_at_most_one_create: d != nil && d.Lifetime == Scoped ==> ncalls("scope.createInstance") <= 1 && ncalls("scope.instancesMu.RLock") == 1 && callarg("scope.instancesMu.RLock", 0, 0) == s
